@@ -27,7 +27,7 @@ def judge(res, verdicts):
                 {"none": "unnamed", "all": "named", "mixed": "partly named"}[t["names"]], t["hs"] or "(none)",
                 len(t["samples"]), name, cond, count),
                 dict(kind="solved" if t["solved"] else "hist", cls=t["cls"], P=t["P"], h=t["h"], names=t["names"],
-                     decls=t.get("decls"), order=t.get("order")))
+                     decls=t.get("decls"), order=t.get("order"), resolve=t.get("resolve", 0)))
     return nontriv
 
 
@@ -46,6 +46,10 @@ def solved_items(tier, pts):
                         if tier == "quick" and (pi + oi + VARIANTS.index(names)) % 2 == 1:
                             continue
                         items.append(dict(cls=cls, P=P, decls=decls, order=order, names=names))
+                        if oi == 0 and names == VARIANTS[0]:
+                            # the same model solved, its tables read, the metric doubled (no new sample), solved again:
+                            # the tables must hold the multipliers of the LATEST solve
+                            items.append(dict(cls=cls, P=P, decls=decls, order=order, names=names, resolve=1))
     return items
 
 
@@ -113,7 +117,7 @@ def replay(path):
     res = Result(PID, "quick")
     wd = workdir(PID + "-replay")
     if rp["kind"] == "solved":
-        it = dict(cls=rp["cls"], P=rp["P"], decls=rp["decls"], order=rp["order"], names=rp["names"])
+        it = dict(cls=rp["cls"], P=rp["P"], decls=rp["decls"], order=rp["order"], names=rp["names"], resolve=rp.get("resolve", 0))
         traces = pool_map("drv_c17", "run_solved", [it], procs=1)
         for t in traces:
             t["decls"], t["order"] = it["decls"], it["order"]
